@@ -75,6 +75,7 @@ inductive CallSt (ν : Type) where
 inductive COut (ν : Type) where
   | one (v : Val ν) : COut ν
   | many (cols : List (Option (Val ν))) : COut ν
+  deriving DecidableEq, Repr
 
 section
 variable {ν : Type} [NumOps ν]
